@@ -222,9 +222,70 @@ func init() {
 		decisive['S'] = "Satisfies differs from the boolean reading of the expression (model `satisfies`, proved equal to it: C01.satisfies_spec, verdict_eq_eval)"
 		res.Rule = "random trees (depth<=5/7, 1-6 distinct valid terms of every kind, random parenthesisation and spacing) x allowed lists built from the terms, related spellings/versions and unrelated entries; plus systematic shapes and all shapes up to 4/5 leaves x every non-empty subset of the terms. Non-trivial & distinct = (tree shape, leaf truth vector) of a non-leaf tree"
 		c01LongAlternatives()
+		c01OneLicenceManySpellings()
 		runTreeProperty(c01Check, scale(12000, 300000), scale(5, 7), scale(4, 5))
 	}
 	replays["C01"] = func(k *kase) *failure { return c01Check(k, false) }
+}
+
+// c01OneLicenceManySpellings: ONE version of one licence in several of its spellings and decorations (X, X-only, X+,
+// X-or-later, X WITH e, X-only WITH e) inside one AND row / one OR, against lists that hold few of them: shortcuts that
+// count "distinct licences" or compare neighbours of a sorted row meet exactly these rows
+func c01OneLicenceManySpellings() {
+	var bases []string
+	for _, id := range tblActive {
+		if b := strings.TrimSuffix(id, "-only"); b != id && implValid(b) {
+			bases = append(bases, b)
+		}
+	}
+	for _, b := range bases {
+		e := genException()
+		sp := []string{b, b + "-only", b + "+", b + "-or-later", b + " WITH " + e, b + "-only WITH " + e, b + "+ WITH " + e}
+		for round := 0; round < scale(12, 60); round++ {
+			n := 2 + rng.Intn(3)
+			perm := rng.Perm(len(sp))
+			terms := make([]string, n)
+			for i := range terms {
+				terms[i] = sp[perm[i]]
+			}
+			var t *tree
+			switch round % 3 {
+			case 0:
+				t = leafT(0)
+				for i := 1; i < n; i++ {
+					t = andT(t, leafT(i))
+				}
+			case 1:
+				t = andT(leafT(0), leafT(1))
+				for i := 2; i < n; i++ {
+					t = andT(leafT(i), t)
+				}
+				t = orT(t, leafT(0))
+			default:
+				t = leafT(0)
+				for i := 1; i < n; i++ {
+					if i%2 == 1 {
+						t = andT(t, leafT(i))
+					} else {
+						t = orT(leafT(i), t)
+					}
+				}
+			}
+			text := t.render(terms, "", false, rng.Intn(3), true)
+			m := 1 + rng.Intn(3)
+			p2 := rng.Perm(len(sp))
+			allowed := make([]string, m)
+			for i := range allowed {
+				allowed[i] = sp[p2[i]]
+			}
+			k := &kase{Expr: text, ExprHex: hx(text), Allowed: allowed, Tree: t.prefix(), Terms: terms}
+			res.Evaluations++
+			count("one_licence_many_spellings")
+			if f := c01Check(k, true); f != nil {
+				fail(*f)
+			}
+		}
+	}
 }
 
 // c01LongAlternatives: one alternative of n ANDed terms for n around machine-word and chunk sizes (coverage kept in a
@@ -459,6 +520,52 @@ func init() {
 			count("respelled_pair_cases")
 			if f := c06Check(k, true); f != nil {
 				fail(*f)
+			}
+		}
+		// products of two or three wide ORs, the operands in random order (64 and more rows: storage reused between rows, rows
+		// copied in sorted order over rows in memory order): every id must come back exactly once
+		{
+			var pool []string
+			inFam := map[string]bool{}
+			for _, x := range famIDs {
+				inFam[x] = true
+			}
+			for _, x := range tblActive {
+				if !inFam[x] && !strings.HasSuffix(x, "-only") && !strings.HasSuffix(x, "-or-later") && len(x) < 14 {
+					pool = append(pool, x)
+				}
+			}
+			for _, widths := range [][]int{{8, 8}, {4, 16}, {2, 32}, {16, 4}, {9, 8}, {3, 3, 8}, {5, 13}, {2, 2, 2, 2, 2, 2}} {
+				total := 0
+				for _, wd := range widths {
+					total += wd
+				}
+				for round := 0; round < scale(120, 1200) && total <= len(pool); round++ {
+					ids := append([]string{}, pool...)
+					rng.Shuffle(len(ids), func(i, j int) { ids[i], ids[j] = ids[j], ids[i] })
+					ids = ids[:total]
+					var groups []string
+					at := 0
+					for _, wd := range widths {
+						groups = append(groups, "("+strings.Join(ids[at:at+wd], " OR ")+")")
+						at += wd
+					}
+					text := strings.Join(groups, " AND ")
+					x := implExt(text)
+					res.Evaluations++
+					count("wide_products")
+					want := append([]string{}, ids...)
+					sort.Strings(want)
+					got := append([]string{}, x.list...)
+					sort.Strings(got)
+					if x.err != nil || x.panicv != nil || strings.Join(got, ",") != strings.Join(want, ",") {
+						fail(failure{Stream: "oracle", What: "ExtractLicenses does not return exactly the distinct terms of a product of wide ORs", Case: &kase{Expr: text, ExprHex: hx(text)}, Impl: x.String(), Expected: "ok " + strings.Join(want, ",")})
+						break
+					}
+					if round%40 == 0 {
+						correspondNorm("E "+hx(text), x.String(), "extracted terms of a product of wide ORs: model vs implementation", &kase{Expr: text, ExprHex: hx(text)}, extractSetNorm)
+					}
+				}
 			}
 		}
 		// spelling experiments that do NOT pass through the implementation's own validity filter: every special id and every
@@ -1091,6 +1198,41 @@ func init() {
 				res.Evaluations++
 				if f := c10Compose(terms); f != nil {
 					fail(*f)
+				}
+			}
+		}
+		// ONE licence in several spellings / decorations in one row, grouped differently (shortcuts that count distinct
+		// licences in a sorted row): all groupings of the same conjunction must agree on every small list
+		for _, id := range tblActive {
+			b := strings.TrimSuffix(id, "-only")
+			if b == id || !implValid(b) {
+				continue
+			}
+			e := genException()
+			sp := []string{b, b + "-only", b + " WITH " + e, b + "-only WITH " + e, b + "+", b + "-or-later WITH " + e}
+			for round := 0; round < scale(4, 20); round++ {
+				pm := rng.Perm(len(sp))
+				a1, a2, a3 := sp[pm[0]], sp[pm[1]], sp[pm[2]]
+				forms := []string{
+					a1 + " AND " + a2 + " AND " + a3,
+					"(" + a1 + ") AND (" + a2 + " AND " + a3 + ")",
+					a3 + " AND (" + a1 + " AND " + a2 + ")",
+					"(" + a2 + " AND " + a3 + " AND " + a1 + ") OR (" + a1 + " AND " + a2 + " AND " + a3 + ")",
+					"(" + a1 + " AND " + a2 + ") AND (" + a3 + " AND " + a1 + ")",
+				}
+				for _, l := range subsetsOf(sp, 6) {
+					if len(l) > 3 {
+						continue
+					}
+					ref := implSat(forms[0], l).String()
+					res.Evaluations++
+					count("one_licence_groupings")
+					for _, f := range forms[1:] {
+						if r := implSat(f, l); r.String() != ref {
+							fail(failure{Stream: "oracle", What: "two groupings of one conjunction give different verdicts (one licence in several spellings)", Case: &kase{Expr: f, ExprHex: hx(f), Allowed: l, Extra: map[string]string{"plain": forms[0]}}, Impl: r.String(), Expected: ref})
+							break
+						}
+					}
 				}
 			}
 		}
